@@ -21,6 +21,8 @@ func init() {
 			c.min("R-THRESHCONV/B", 9)
 			c.ruleSortedSearch("R-SORTEDSEARCH", fgDir)
 			c.min("R-SORTEDSEARCH", 1)
+			c.ruleGhostConstrain()
+			c.min("R-GHOSTCONSTRAIN", 1)
 			c.ruleRoundRecompute()
 			c.min("R-RECOMPUTE", 6)
 			c.ruleWeightSub(map[string]bool{
